@@ -11,7 +11,7 @@ runtime would).
 -/
 import DtailModel.Lemmas.NoPanic
 import DtailModel.Lemmas.GenDecode
-import DtailModel.Lemmas.GenGrep
+import DtailModel.Lemmas.GenGrepPanic
 import DtailModel.Lemmas.GenQuery
 import DtailModel.Model.Base64
 set_option autoImplicit false
